@@ -684,21 +684,34 @@ def n_jobs():
 
 
 def run_units(ctx, salt, n_pairs, nsteps, n_states, deadline=None):
+  """run all (pair, pipeline) units; units not yet started when `deadline` passes are skipped
+  (their number is recorded in ctx.notes and in the evidence)"""
   import concurrent.futures as cf
   import multiprocessing as mp
   tasks = [(ctx.seed, salt, p, pipe, nsteps, n_states, ctx.repo) for p in range(n_pairs) for pipe in PIPES]
-  out = []
+  out, skipped = [], 0
   jobs = n_jobs()
   if jobs == 1:
-    return [unit(t) for t in tasks]
-  with cf.ProcessPoolExecutor(max_workers=jobs, mp_context=mp.get_context('spawn')) as ex:
-    futs = [ex.submit(unit, t) for t in tasks]
-    for f in futs:
-      if deadline is not None and time.time() > deadline and not f.running() and not f.done():
-        f.cancel()
+    for t in tasks:
+      if deadline is not None and time.time() > deadline:
+        skipped += 1
         continue
-      out.append(f.result())      # a worker exception is an internal error: propagate
+      out.append(unit(t))
+  else:
+    with cf.ProcessPoolExecutor(max_workers=jobs, mp_context=mp.get_context('spawn')) as ex:
+      futs = [ex.submit(unit, t) for t in tasks]
+      for f in futs:
+        if deadline is not None and time.time() > deadline and f.cancel():
+          skipped += 1
+          continue
+        out.append(f.result())      # a worker exception is an internal error: propagate
+  if skipped:
+    ctx.notes.append(f'C05: {skipped} of {len(tasks)} units skipped at the time limit (salt {salt})')
+  SKIPPED[salt] = skipped
   return out
+
+
+SKIPPED = {}
 
 
 def collect(ctx, units, shrink_budget=45.0, max_shrunk=3):
@@ -802,15 +815,16 @@ def correspond(ctx):
   n_pairs = ctx.budget(4, 75)
   nsteps = ctx.budget(2, 5)
   n_states = ctx.budget(1, 2)
-  units = run_units(ctx, 0, n_pairs, nsteps, n_states)
+  units = run_units(ctx, 0, n_pairs, nsteps, n_states, deadline=time.time() + ctx.budget(140.0, 960.0))
   n_lines, dis = lean_leg(units)
   fails = collect(ctx, units, shrink_budget=ctx.budget(40.0, 120.0))
   tot, hist, shapes, per_pipe, limits = summarise(units)
+  n_models = sum(hist.values())
   first = next((row for u in units for row in u['lean']), None)
   sample = None if first is None else dict(link_types=first['types'], q=first['q'][:8], g=first['g'])
   return dict(
       evaluations=tot['evals'] + n_lines, distinct_nontrivial=len(shapes),
-      rule=f'{2 * n_pairs} free-rooted contact-free generator forests (1-6 links, stacks 1-3, limits, actuators, random '
+      rule=f'{n_models} free-rooted contact-free generator forests (1-6 links, stacks 1-3, limits, actuators, random '
            f'gravity in a third of the pairs) x {n_states} state(s)/control(s)/uniform random rigid transform(s) x '
            f'{{generalized with exact inverse, spring, positional}}: init + {nsteps} steps of the transformed scene vs the '
            'transformed trajectory (1e-7 relative, |qd|>1e4 counted not compared); every model with >= 3 bodies and two '
@@ -830,7 +844,7 @@ def correspond(ctx):
                  per_pipeline=per_pipe, worst_error_over_tolerance=tot['worst_over_tol'], jit_compiles=tot['compiles'],
                  perm_skipped_fewer_than_3_bodies=tot['perm_skipped_small'],
                  perm_skipped_no_siblings=tot['perm_skipped_no_siblings'], models_limits=limits,
-                 lean_lines=n_lines, workers=n_jobs(),
+                 lean_lines=n_lines, workers=n_jobs(), units_run=len(units), units_skipped_time_limit=SKIPPED.get(0, 0),
                  failures_by_key={f['key']: f['occurrences'] for f in fails}))
 
 
